@@ -63,7 +63,7 @@ def run(F, chk):
         cond_facts=[(is_len_eq_1, True, 'len_eq_1')])
     for b in bodies:
         spec = spec_single if b.path.endswith('new_or_single_it') else spec_default
-        lin.run_linearity(b, spec, L1, L2, L7)
+        lin.run_linearity(b, spec, L1, L2, L7, F=F)
 
     # K3 + L6 on the two `next` implementations
     K3 = chk.rule('K3', 'every Some(msg) return stores the pre-increment self.index into msg.index and increments exactly once; other returns do neither')
@@ -116,6 +116,8 @@ def check_numbering(body, K3):
         return out
 
     def term_event(t, b):
+        if none_by_question_mark(body, t):
+            return ['ret_none']
         if t.k == 'call' and t.dest.is_local and t.dest.l == 0:
             tgt = t.callee.resolved or t.callee.path
             return ['ret_deleg' if tgt == body.path else 'ret_other']
@@ -147,6 +149,13 @@ def check_numbering(body, K3):
     K3.floor('return states of ' + body.path, n_ret, 2)
 
 
+def none_by_question_mark(body, t):
+    """`opt?` in a function returning Option: the Break edge stores FromResidual::from_residual(None-residual) into the return
+    place - a `None` return spelled with the question mark"""
+    return t.k == 'call' and t.dest.is_local and t.dest.l == 0 and not t.dest.p and t.callee.path.endswith('FromResidual::from_residual') and \
+        body.ret_type().startswith('std::option::Option<') and t.args and (t.args[0].ty or '').startswith('std::option::Option<std::convert::Infallible')
+
+
 def check_eos(body, L6):
     """None returns: only with the exhaustion fact of the source container"""
     cfg = CFG(body)
@@ -165,8 +174,11 @@ def check_eos(body, L6):
     for b in body.blocks:
         if b.cleanup:
             continue
-        for s in b.stmts:
-            if s.k == 'assign' and s.place.is_local and s.place.l == 0 and s.rv['k'] == 'agg' and s.rv.get('variant') == 'None':
+        sites = [s for s in b.stmts if s.k == 'assign' and s.place.is_local and s.place.l == 0 and s.rv['k'] == 'agg' and s.rv.get('variant') == 'None']
+        if none_by_question_mark(body, b.term):
+            sites.append(b.term)
+        for s in sites:
+            if True:
                 n += 1
                 states = ex.states.get(b.i, set())
                 bad = None
@@ -278,6 +290,13 @@ def check_merge_key(F, tys, O2):
                         fl = [e for e in (pl.p if pl is not None else []) if e['k'] == 'f']
                         if fl:
                             keys.add((fl[-1].get('o'), fl[-1]['n'], fl[-1]['i']))
+                        elif pl is not None and pl.is_local:
+                            # `self.sort_key().cmp(&other.sort_key())`: the compared value is the result of a trivial accessor
+                            sd = cfg.single_def(pl.l)
+                            if sd is not None and sd[1] == 'call':
+                                gf = comparators.getter_fields(F, sd[2].callee.resolved or sd[2].callee.path)
+                                if gf:
+                                    keys.add(gf[-1])
         if not keys:
             O2.violation(('merge-key-unknown', body.path), 'cannot determine the field compared by %s' % body.path, where=body.loc(None))
             continue
